@@ -44,7 +44,8 @@ Section SolverD.
      constraint is either skipped because flagged enforced, or passes on s', c passes on s'.
      (For built-ins: flagged enforced => guaranteed by membership in the space, C04; otherwise C08.) *)
   Definition sound (c : spec) : Prop :=
-    forall a b s s', good space n s -> good space n s' -> agree_out a b s s' -> passes_c c s ->
+    forall a b s s', 0 <= a -> a < b -> b <= n ->
+      good space n s -> good space n s' -> agree_out a b s s' -> passes_c c s ->
       match localize c (mkLoc a b 0) true s with
       | LSome c' => let c'' := reinit false c' s in
                     (enforced c'' = false -> passes_c c'' s') -> passes_c c s'
